@@ -1562,3 +1562,184 @@ func c17AttemptCtx(c *Ctx, exec *ssa.Function) {
 	}
 	c.R.Min("R-attempt-ctx", 2)
 }
+
+// ---------------------------------------------------------------- R-session-adopted (C19)
+// "Every later request carries the session id the server issued": the id arrives in a response header, so it is by
+// construction a value net/http accepts in a header, and the client has no business judging it. The value the client
+// reads from the response header it later echoes (the header name is discovered from the client's own request-building
+// code: a member copied into a request header under the same name) is not passed through a library predicate that can
+// make the client drop it — an id the predicate refuses leaves the client without a session although the server
+// opened one, and no later request (nor the final DELETE) carries it.
+func c19SessionAdopted(c *Ctx) {
+	echoed := map[string]bool{}
+	for _, fn := range c.P.LibFns {
+		if !clientSide(c, fn) {
+			continue
+		}
+		ir.EachCall(fn, func(call ssa.CallInstruction) {
+			n := ir.CallName(call)
+			if n != "(net/http.Header).Set" && n != "(net/http.Header).Add" {
+				return
+			}
+			args := call.Common().Args
+			if len(args) != 3 {
+				return
+			}
+			k, ok := ir.ConstStr(args[1])
+			if !ok {
+				return
+			}
+			v := args[2]
+			if oc := originCall(v); oc != nil {
+				// through the member's accessor (getSessionID())
+				if sc := ir.StaticCallee(oc); sc != nil && c.P.IsLib(sc) {
+					for _, b := range sc.Blocks {
+						if ret, ok := b.Instrs[len(b.Instrs)-1].(*ssa.Return); ok {
+							for _, res := range ir.Results(ret) {
+								if f, _, ok := ir.LoadedField(unspill(res)); ok && ir.TypeStr(f.Type) == "string" {
+									echoed[k] = true
+								}
+							}
+						}
+					}
+				}
+			}
+			if f, _, ok := ir.LoadedField(v); ok && ir.TypeStr(f.Type) == "string" {
+				echoed[k] = true
+			}
+		})
+	}
+	n := 0
+	for _, fn := range c.P.LibFns {
+		if !clientSide(c, fn) {
+			continue
+		}
+		cnt := 0
+		ir.EachInstr(fn, func(_ *ssa.BasicBlock, _ int, in ssa.Instruction) {
+			get, ok := in.(*ssa.Call)
+			if !ok || ir.CallName(get) != "(net/http.Header).Get" || len(get.Call.Args) != 2 {
+				return
+			}
+			k, ok := ir.ConstStr(get.Call.Args[1])
+			if !ok || !echoed[k] {
+				return
+			}
+			// response headers only: the receiver is the Header member of an *http.Response
+			if f, _, ok := ir.LoadedField(get.Call.Args[0]); !ok || f.Name != "Header" || f.Struct == nil || f.Struct.Obj().Name() != "Response" {
+				return
+			}
+			n++
+			cnt++
+			var bad *ssa.Call
+			vals := []ssa.Value{get}
+			for i := 0; i < len(vals) && i < 16; i++ {
+				if vals[i].Referrers() == nil {
+					continue
+				}
+				for _, r := range *vals[i].Referrers() {
+					switch x := r.(type) {
+					case *ssa.Store:
+						// a local cell: its loads
+						if al, ok := x.Addr.(*ssa.Alloc); ok {
+							for _, ar := range *al.Referrers() {
+								if ld, ok := ar.(*ssa.UnOp); ok && ld.Op == token.MUL {
+									vals = append(vals, ld)
+								}
+							}
+						}
+					case *ssa.Call:
+						sc := ir.StaticCallee(x)
+						if sc == nil || !c.P.IsLib(sc) {
+							continue
+						}
+						if sig := sc.Signature; sig.Results().Len() == 1 && ir.TypeStr(sig.Results().At(0).Type()) == "bool" {
+							bad = x
+						}
+					}
+				}
+			}
+			detail := ""
+			if bad != nil {
+				detail = sprintf("%s passes the %s value it read from the response through the library predicate %s before adopting it: an id the predicate refuses (the header value is by construction one net/http can carry) is dropped, the client goes on without a session although the server opened one, and neither its later requests nor its DELETE carry the id", fname(fn), k, fname(ir.StaticCallee(bad)))
+			}
+			c.R.Check(bad == nil, "R-session-adopted", sprintf("%s read from a response #%d in %s", k, cnt, fname(fn)), c.Pos(get.Pos()),
+				"adopted as received (tested for emptiness at most)", detail)
+		})
+	}
+	c.R.Min("R-session-adopted", 2)
+}
+
+// ---------------------------------------------------------------- R-shared-pointee-write (C20)
+// A transport keeps pointers to records of other packages (*url.URL, *http.Client) in its members; every call on the
+// transport sees the same record. Outside construction, a write to a member of such a record through the pointer loaded
+// from the transport — `u := t.serverURL; u.Path = …` copies the pointer, not the URL — is a write to state shared by
+// all concurrent calls, and those records have no lock of their own.
+func c20SharedPointeeWrite(c *Ctx) {
+	n, bad := 0, 0
+	init := c.InitOnly()
+	for _, fn := range c.P.LibFns {
+		if init[fn] || ir.IsConstructor(fn) {
+			continue
+		}
+		ir.EachInstr(fn, func(_ *ssa.BasicBlock, _ int, in ssa.Instruction) {
+			st, ok := in.(*ssa.Store)
+			if !ok {
+				return
+			}
+			fa, ok := st.Addr.(*ssa.FieldAddr)
+			if !ok {
+				return
+			}
+			ptr := fa.X
+			// through a local variable holding the pointer
+			ptr = unspill(ptr)
+			ld, ok := ptr.(*ssa.UnOp)
+			if !ok || ld.Op != token.MUL {
+				return
+			}
+			m, ok := ld.X.(*ssa.FieldAddr)
+			if !ok {
+				return
+			}
+			key, _, _, base := ir.FullField(m)
+			if key == "" || ir.BaseAlloc(base) {
+				return
+			}
+			if owner := ir.FullFieldOwner(m); owner == nil || !ir.InLibrary(owner) {
+				return // a member of a record of another package (httpReq.URL): the record is the function's own
+			}
+			// the function that configures a server record and then runs it (blocks in Serve) is the record's only user
+			serves := false
+			ir.EachCall(fn, func(call ssa.CallInstruction) {
+				if n := ir.CallName(call); strings.HasPrefix(n, "(*net/http.Server).") && strings.Contains(n, "Serve") {
+					serves = true
+				}
+			})
+			if serves {
+				return
+			}
+			pt, ok := ld.Type().Underlying().(*types.Pointer)
+			if !ok {
+				return
+			}
+			named, ok := pt.Elem().(*types.Named)
+			if !ok || ir.InLibrary(named) {
+				return
+			}
+			if _, isStruct := named.Underlying().(*types.Struct); !isStruct {
+				return
+			}
+			n++
+			if len(c.Locks().At(st)) > 0 {
+				c.R.Hold("R-shared-pointee-write", sprintf("write through %s in %s", key, fname(fn)), c.Pos(st.Pos()), "made under a lock")
+				return
+			}
+			bad++
+			c.R.Violate("R-shared-pointee-write", sprintf("write through %s in %s", key, fname(fn)), c.Pos(st.Pos()),
+				sprintf("%s writes a member of the %s record that %s points to: the pointer is shared by every call on the object (copying the pointer into a local does not copy the record), so concurrent calls write — and read, when they build their requests — the same record without synchronisation", fname(fn), ir.TypeStr(named), key))
+		})
+	}
+	if bad == 0 {
+		c.R.Hold("R-shared-pointee-write", "records of other packages reached through members are not written after construction", "", sprintf("%d writes through member pointers examined", n))
+	}
+}
